@@ -114,20 +114,19 @@ def updateOne (s : RegState) (reg : Txt) (change : Option Change) : RegState :=
   match change with
   | none => setReg s reg none
   | some ch =>
-    match lookup s reg with
-    | some none => setReg s reg none
-    | cur =>
-      let st : Change := match cur with
-        | some (some c) => c
-        | _ => { name := reg, value := 0 }
-      if ch.name != reg then
-        -- renaming: take over the up-to-now change of the source register
-        match lookup s ch.name with
-        | some none => setReg s reg none
-        | some (some src) => setReg s reg (some { name := src.name, value := src.value + ch.value })
-        | none => setReg s reg (some { name := ch.name, value := 0 + ch.value })
-      else
-        setReg s reg (some { name := st.name, value := st.value + ch.value })
+    if ch.name != reg then
+      -- renaming (the register is overwritten with `source + value`, whatever it held, known or not): take over
+      -- the up-to-now change of the source register
+      match lookup s ch.name with
+      | some none => setReg s reg none
+      | some (some src) => setReg s reg (some { name := src.name, value := src.value + ch.value })
+      | none => setReg s reg (some { name := ch.name, value := 0 + ch.value })
+    else
+      -- an increment of the register itself: an unknown stays unknown
+      match lookup s reg with
+      | some none => setReg s reg none
+      | some (some st) => setReg s reg (some { name := st.name, value := st.value + ch.value })
+      | none => setReg s reg (some { name := reg, value := 0 + ch.value })
 
 def updateState (s : RegState) (changes : List (Txt × Option Change)) : RegState :=
   changes.foldl (fun s e => updateOne s e.1 e.2) s
